@@ -134,6 +134,45 @@ def _series_t(case, ctx):
         ok, d = ctx.call("transform:exception:" + name, tr2.transform, z)
         if ok:
             ctx.check("pickle", _eq(a, d), "pickle:%s:restored-copy-differs" % name, "a pickled and restored transformer gives another result")
+    # apply-type calls leave no trace: a long-lived instance applied to a sequence of different inputs (same end points and
+    # length but other time points in between, sub-stretches) returns for each what a copy restored from the state right after
+    # fit returns when it sees only that input
+    gap_ok = kind not in ("hampel", "acf", "pacf", "imputer", "detrend_naive") and not isinstance(z, pd.DataFrame)
+    others = []
+    if gap_ok and n >= 8:
+        keepA = [i for i in range(n) if i not in (3, 6)]
+        keepB = [i for i in range(n) if i not in (2, 5)]
+        others += [z.iloc[keepA], z.iloc[keepB], z.iloc[keepA]]
+    others += [z.iloc[: max(14, n // 2)], z.iloc[n - max(14, n // 2):], z]
+    for qi, q in enumerate(others):
+        ok1, r_long = ctx.call("transform:exception:" + name, tr.transform, q.copy())
+        try:
+            fresh = pickle.loads(state0)
+        except Exception:  # noqa
+            break
+        ok2, r_fresh = ctx.call("transform:exception:" + name, fresh.transform, q.copy())
+        if ok1 and ok2:
+            ctx.check("apply.interleaved", _eq(r_long, r_fresh), "interleave:%s:transform-depends-on-earlier-apply-calls" % name,
+                      "transform of a long-lived instance differs from that of a copy that has seen no other apply-type call", call=qi, n_points=len(q))
+    # equal parameters + equal data => equal results: an instance with an earlier life (fitted on another series) fitted again on z
+    if not (kind == "imputer" and cfg[1].get("method") == "random"):
+        u = c13.build(cfg) if kind != "imputer" else zoo.build_transformer(cfg)
+        m0 = int(rng.integers(18, 50))
+        v0 = 30 + 0.2 * np.arange(m0) + 3 * np.sin(2 * np.pi * (np.arange(m0) + 2) / max(cfg[1].get("sp", 4), 2)) + rng.normal(0, 1, m0)
+        z0 = pd.DataFrame({"a": v0, "b": v0[::-1] + 1.0}, index=pd.RangeIndex(5, 5 + m0)) if isinstance(z, pd.DataFrame) else pd.Series(v0, index=pd.RangeIndex(5, 5 + m0))
+        try:
+            u.fit(z0)
+            u.transform(z0)
+            used = True
+        except Exception:  # noqa
+            used = False
+        if used:
+            ok, _ = ctx.call("fit:exception:%s:refit-of-used-instance" % name, u.fit, z)
+            if ok:
+                ok, e = ctx.call("transform:exception:%s:refit-of-used-instance" % name, u.transform, z)
+                if ok:
+                    ctx.check("equal-params", _eq(a, e, 1e-12), "equal-params:%s:refitted-used-instance-differs-from-fresh" % name,
+                              "a transformer that was fitted on another series before, fitted again on the same data, transforms differently from a fresh one")
     ctx.tag("t:" + kind)
     ctx.event(kind="series-t", transformer=name, data=case["data"])
     ctx.nontrivial = True
@@ -164,6 +203,21 @@ def _forecaster(case, ctx):
         ok2, c = ctx.call("predict:exception:" + spec[0], f.predict, fh, Xf)
         if ok1 and ok2:
             ctx.check("apply.interleaved", _eq(a, c, 1e-12), "interleave:%s:predict-after-other-predict-differs" % spec[0], "predict after an interleaved predict with another horizon differs")
+    if not zoo.requires_fh_in_fit(spec) and Xf is None:
+        # a sequence of different horizons (same first / last step and length, other steps in between): each forecast equals that of a
+        # copy which has answered no other request
+        try:
+            state = pickle.dumps(f)
+        except Exception:  # noqa
+            state = None
+        if state is not None:
+            for qi, q in enumerate(([1, 2, 4], [1, 3, 4], [1, 2, 4], [2], [1, 2, 3, 4, 5], [1, 3, 4])):
+                ok1, r_long = ctx.call("predict:exception:" + spec[0], f.predict, q)
+                ok2, r_fresh = ctx.call("predict:exception:" + spec[0], pickle.loads(state).predict, q)
+                if ok1 and ok2:
+                    ctx.check("apply.interleaved", _eq(r_long, r_fresh, 1e-12), "interleave:%s:predict-depends-on-earlier-predict-calls" % spec[0],
+                              "predict of a long-lived forecaster differs from that of a copy that has answered no other request", call=qi, horizon=q,
+                              got=np.asarray(r_long).tolist(), expected=np.asarray(r_fresh).tolist())
     ok, f2 = ctx.call("pickle:exception:" + spec[0], lambda: pickle.loads(pickle.dumps(f)))
     if ok:
         ok, d = ctx.call("predict:exception:" + spec[0], f2.predict, fh, Xf)
